@@ -124,17 +124,21 @@ Carried(a, v) ==
   ELSE v
 
 \* what the server reads back for one attribute from its location
-ReadBack(a, w) ==
+\* (side: who reads - the generated server takes the value of a REQUIRED plain string request cookie as it is, empty or not:
+\*  `c, err = r.Cookie(..); if err == http.ErrNoCookie {missing} else {v = c.Value}`; every other reader tests the text against "")
+ReadBackAt(a, w, side) ==
   LET dflt == IF a.mode = "default" THEN DefaultOf(a) ELSE Absent
       c == IF w.loc = "none" THEN Absent ELSE Carried(a, w.v) IN
   IF w.loc = "none" THEN dflt
   ELSE IF a.nest = "whole_mapval" /\ a.loc = "query" /\ Dev("decode.mapparams_prefix_expected") THEN EmptyOf(a)
   ELSE IF a.loc = "body" THEN c
-  ELSE IF a.kind = "string" /\ a.nest \in {"direct", "alias", "whole"} /\ c.s = "empty" /\ Dev("param.empty_string_is_absent") THEN dflt
+  ELSE IF a.kind = "string" /\ a.nest \in {"direct", "alias", "whole"} /\ c.s = "empty" /\ Dev("param.empty_string_is_absent")
+          /\ ~(side = "server" /\ a.loc = "cookie" /\ a.mode = "required" /\ a.nest = "direct") THEN dflt
   ELSE IF a.kind = "bytes" /\ c.n = 0 /\ Dev("param.empty_string_is_absent") THEN dflt           \* (the same test on the raw text)
   ELSE IF a.loc = "path" /\ a.kind \in {"string", "bytes"} /\ c.s = "pcthex" /\ Dev("mux.double_unescape")
        THEN [c EXCEPT !.s = "plain", !.n = c.n - 2]
   ELSE c
+ReadBack(a, w) == ReadBackAt(a, w, "client")
 
 Routed == \A i \in PIdx : ~(cfg.pa[i].loc = "path" /\ cfg.pa[i].kind \in {"string", "bytes"} /\ wire[i].v # Absent
                             /\ wire[i].v.s = "slash" /\ Dev("client.path_not_escaped"))
@@ -208,7 +212,7 @@ Route ==
   /\ UNCHANGED <<cfg, pv, rv, wire, delivered, invoked, rwire, returned, cerr>>
 ServerDecode ==
   /\ pc = "decode"
-  /\ delivered' = [i \in PIdx |-> ReadBack(cfg.pa[i], wire[i])]
+  /\ delivered' = [i \in PIdx |-> ReadBackAt(cfg.pa[i], wire[i], "server")]
   /\ pc' = "validate"
   /\ UNCHANGED <<cfg, pv, rv, wire, invoked, status, errname, rwire, returned, cerr>>
 ServerValidate ==
